@@ -234,6 +234,7 @@ FAULT_RE = re.compile(r" => fault api:(\w+)")
 NAMED_ERRORS = {"OutputOverflow", "HttpParseTooManyHeaders"}
 
 
+MALFORMED_RE = re.compile(r" => (?:none|fault api:\S+) @")
 AFTER_READ_ERROR = {"bread", "cread", "canproceed", "cended", "boundary", "mode", "proceed", "proceed!", "stopb", "cboundary", "cstopb"}
 
 
@@ -270,11 +271,14 @@ def compare(pid, impl_lines, model_lines):
     prev_state = "none"
     unspecified = None
     head_out = False
+    malformed = False
     n = min(len(impl_lines), len(model_lines))
     for i in range(n):
         a, b = impl_lines[i], model_lines[i]
         if a.startswith("case "):
-            ci += 1; prev_state = "none"; unspecified = None; head_out = False; continue
+            ci += 1; prev_state = "none"; unspecified = None; head_out = False
+            malformed = pid == "C20" and a.split(" ")[1].startswith("mal")
+            continue
         if a.startswith("meta "):
             continue
         if unspecified == "all" or (unspecified == "body" and opkw(a) in AFTER_READ_ERROR):
@@ -318,6 +322,11 @@ def compare(pid, impl_lines, model_lines):
             unspecified = "all"
             continue
         ca, cb = canon(kw, a), canon(kw, b)
+        if malformed and kw.startswith("parse-"):
+            # C20 speaks about well-formed heads and their prefixes (compared exactly in the other groups); for the
+            # strings of the malformed groups "incomplete" and "an error" are equally good answers — what is
+            # compared is whether a head is reported, and which
+            ca, cb = MALFORMED_RE.sub(" => incomplete-or-error @", ca), MALFORMED_RE.sub(" => incomplete-or-error @", cb)
         if ca != cb:
             mism.append((ci, i + 1, a, b))
         elif kw in ("bread", "cread") and " => fault api:" in ca:
